@@ -1,17 +1,40 @@
 #!/bin/bash
-# usage: sweep_seeded.sh <log> [jobs]   -- runs every kept seeded change in seeded/*/ against the checks named in its meta.json
-# (quick tier, scratch worktrees of /repo HEAD) and appends "### <name>" / "== <check> rc=..." lines to <log>.
-LOG=$1; J=${2:-2}
+# usage: sweep_seeded.sh <log> <jobs> [name-prefix...]  -- runs every kept seeded change in seeded/*/ against the checks named in its
+# meta.json (quick tier) and appends "### <name>" / "== <check> rc=..." lines to <log>.  Each job owns one scratch worktree of /repo
+# HEAD under /tmp which it re-uses for all its changes (git checkout + git apply), so that the compiler cache hits; removed at the end.
+LOG=$1; J=${2:-2}; shift 2
 cd /verif
-python3 - <<'P' > /tmp/sweep_list.txt
-import json,glob,os
+python3 - "$@" <<'P' > /tmp/sweep_list.txt
+import json,glob,os,sys
+pre=sys.argv[1:]
 for f in sorted(glob.glob('/verif/seeded/*/meta.json')):
     d=json.load(open(f)); n=os.path.basename(os.path.dirname(f))
+    if pre and not any(n.startswith(p) for p in pre): continue
     ids=sorted(d.get('checks_run_against_it',{}) or [d['property']])
     print(n, ' '.join(ids))
 P
-run_one() { n=$1; shift; out=$(tools/try_seeded.sh seeded/$n/patch.diff "$@" 2>&1 | grep -E "^== |PATCH DOES NOT APPLY"); printf '### %s\n%s\n' "$n" "$out" >> "$LOG"; }
-export -f run_one; export LOG
 : > "$LOG"
-xargs -P $J -L 1 bash -c 'run_one $0 "$@"' < /tmp/sweep_list.txt
+slot() {
+  k=$1; D=/tmp/seedsweep.slot$k
+  git -C /repo worktree remove --force $D >/dev/null 2>&1
+  git -C /repo worktree add --detach $D HEAD >/dev/null 2>&1 || exit 2
+  cp /repo/include/fix8/f8config.h $D/include/fix8/
+  i=0
+  while read n ids; do
+    i=$((i+1)); [ $(( (i-1) % J )) -eq $((k-1)) ] || continue
+    git -C $D checkout -q -- . ; git -C $D clean -fdq -e include/fix8/f8config.h
+    if ! git -C $D apply /verif/seeded/$n/patch.diff 2>/dev/null; then printf '### %s\nPATCH DOES NOT APPLY\n' "$n" >> "$LOG"; continue; fi
+    res=""
+    for id in $ids; do
+      out=$(VERIF_REPO=$D python3 check.py $id --tier quick 2>&1); rc=$?
+      res="$res== $id rc=$rc $(echo "$out" | grep -c '^VIOLATION') violation line(s): $(echo "$out" | grep -m3 '  key:' | tr '\n' ';' | cut -c1-300)"$'\n'
+    done
+    printf '### %s\n%s' "$n" "$res" >> "$LOG"
+  done < /tmp/sweep_list.txt
+  W=$(VERIF_REPO=$D python3 -c "import sys; sys.path.insert(0,'tools'); import build; print(build.WORK)")
+  rm -rf "$W"
+  git -C /repo worktree remove --force $D
+}
+for k in $(seq 1 $J); do slot $k & done
+wait
 echo SWEEP-DONE >> "$LOG"
